@@ -146,6 +146,26 @@ def run():
     fncommon.validate(ctx0, [bent], "Trace_PolyDivide", "std2", nshards=1)
     t.check("a quotient coefficient moved by one ulp is rejected by Trace_PolyDivide", len(ctx0.drift) == nd0 + 1)
     del ctx0.drift[nd0:]
+    from checks import c16
+    scases = [c for c in c16.seeded(ctx0, random.Random(7), 60) if c["err_case"] == "none" and len(c["xs"]) >= 3][:20]
+    for k, c in enumerate(scases):
+        c["id"] = k + 1
+    srows = [{k: r[k] for k in ("id", "kind", "cx", "xs", "ys", "f0", "fn", "err_case", "obs")} for r in fncommon.observe(ctx0, "spline", scases, "sts", nproc=1)]
+    nd0 = len(ctx0.drift)
+    fncommon.validate(ctx0, srows, "Trace_Spline", "sts", nshards=1, env={"VH_KS": c16.KS})
+    t.check("clean splines agree with the sweeps of SplineSweep over doubles", len(ctx0.drift) == nd0 and len(srows) == 20, "%d splines" % len(srows))
+    import copy
+    # (a lattice case - three knots a unit apart near the origin - so that the conditioning allowance is a few hundred ulps)
+    lcase = next(c for c in c16.lattice(ctx0) if c["err_case"] == "none" and len(c["xs"]) == 3)
+    lcase["id"] = 1
+    lrow = fncommon.observe(ctx0, "spline", [lcase], "sts3", nproc=1)[0]
+    bent = copy.deepcopy({k: lrow[k] for k in ("id", "kind", "cx", "xs", "ys", "f0", "fn", "err_case", "obs")})
+    n0 = len(bent["xs"])
+    v = bent["obs"]["pts"][n0 + 2]["v"]
+    bent["obs"]["pts"][n0 + 2]["v"] = [vlib.float_to_pair(vlib.pair_to_float(v[0]) + 1e-6 * (1 + abs(vlib.pair_to_float(v[0])))), v[1]]
+    fncommon.validate(ctx0, [bent], "Trace_Spline", "sts2", nshards=1, env={"VH_KS": c16.KS})
+    t.check("a recorded spline value moved by 1e-6 is rejected by Trace_Spline", len(ctx0.drift) == nd0 + 1)
+    del ctx0.drift[nd0:]
     t.check("clean brent() abscissa traces explained bit for bit by Brent over doubles", not ctx0.drift and len(brows) == 25, "%d runs" % len(brows))
     j = next(k for k, r in enumerate(brows) if r["n"] >= 6 and r["ret"] == "ok")
     b2 = copy.deepcopy(brows)
